@@ -193,3 +193,22 @@ func registerRenderReplayer(names ...string) {
 		})
 	}
 }
+
+// sample is the compact form of a render case kept in evidence samples.
+func (cs renderCase) sample() map[string]any {
+	m := map[string]any{"src": cs.Src, "want": cs.Want}
+	if cs.Src2 != "" {
+		m["src2"] = cs.Src2
+	}
+	if cs.Data != nil {
+		d := map[string]string{}
+		for i, k := range cs.Data.Keys {
+			d[k] = spec.Describe(cs.Data.Vals[i])
+		}
+		m["data"] = d
+	}
+	if cs.Note != "" {
+		m["note"] = cs.Note
+	}
+	return m
+}
